@@ -101,6 +101,11 @@ Theorem C04_column_order_irrelevant : forall size kcols m labels f f' t fuel,
   register size kcols m labels f t fuel = register size kcols m labels f' t fuel.
 Proof. exact register_column_order_irrelevant. Qed.
 
+(* ... nor does the ORDER in which the key columns are configured: the hash sums one term per column in wrapping
+   arithmetic, so it is symmetric in the columns. *)
+Theorem C04_key_column_order_irrelevant : forall size k k' salt10, Permutation k k' -> hash size k salt10 = hash size k' salt10.
+Proof. exact hash_perm. Qed.
+
 (* The simulant attached to a key is the one that supplied it: the simulant index is joined back on the key
    levels, never positionally.  (A map that is injective but mis-aligned violates exactly this.) *)
 Theorem C04_join_by_key : forall size crn m b t fuel m', Inj m -> update size crn m b t fuel = Ok m' ->
@@ -151,5 +156,6 @@ Print Assumptions C04_labels_irrelevant.
 Print Assumptions C04_labels_irrelevant_history.
 Print Assumptions C04_only_key_columns_matter.
 Print Assumptions C04_column_order_irrelevant.
+Print Assumptions C04_key_column_order_irrelevant.
 Print Assumptions C04_join_by_key.
 Print Assumptions C04_join_by_key_history.
